@@ -152,7 +152,7 @@ def named_repeats_cases(draw):
     keys = S.splitmix(seed + 2, n, 0, 2 ** 30)
     values = [values[i] for i in sorted(range(n), key=lambda i: (keys[i], i))]
     case = {"alg": alg, "values": values, "numbins": k, "nseed": draw(st.integers(0, 5)), "profile": "named-repeats",
-            "pres": draw(st.sampled_from(["dict-str", "dict-str", "dict-int", "names", "names-array"]))}
+            "pres": draw(st.sampled_from(["dict-str", "dict-str", "dict-int", "names", "names-array", "dict-mixed"]))}
     if alg == "cg":
         case["opts"] = {"objective": draw(st.sampled_from(S.CG_OBJECTIVES))}
     return case
